@@ -4,6 +4,14 @@ import vlib
 def run(ctx):
     cfgs = ["MC_valid.cfg", "MC_bytes.cfg"] if ctx.tier == "quick" else ["MC_valid_t.cfg", "MC_bytes_t.cfg"]
     vlib.case_component(ctx, "Trie", "MultiMatch", "MultiMatch", cfgs, "c05", extra_args=["-prop", "C05"], tlc_timeout=3000)
+    # the growable ring queue of the failure-link construction, as a state machine of its own (white box only)
+    try:
+        vlib.seq_component(ctx, "NodeQueue", "MultiMatch", "NodeQueue", "MC_queue.cfg", "NodeQueueTrace", "QueueTrace.cfg", "nodequeue", ["algz"],
+                           rand_n=100 if ctx.tier == "quick" else 2000, rand_len=80)
+    except vlib.Inconclusive as e:
+        if ctx.whitebox and "go build" not in str(e):
+            raise
+        ctx.drift.append("NodeQueue: the export file for the unexported trieNodeQueue does not fit the current tree; the queue is covered through the wide-trie query cases only (%s)" % str(e)[:200])
     ctx.assumptions += ["patterns are drawn from a pool of 15 patterns (shared prefixes, suffix/infix relations, 1-4 byte runes, U+FFFD) in sets of <= 2 (quick) / 3 (thorough); texts are all rune sequences over {a, b, zhong, shi} and all byte sequences over 8 bytes (incl. 0xFF and truncated runes) up to 4 / 5 symbols",
                         "patterns are also inserted in reverse order with a duplicate and an empty pattern"]
 
